@@ -535,6 +535,21 @@ def _class_based_cm(chk, ix, cls):
                     ent = ix.resolve_expr_entity(e.func, mod)
                     if ent and ent[0] == "class" and ent[1] is cls:
                         shared.append((mod, f"{c.name}.{name}", e))
+    # ... and every other construction that is not consumed on the spot by a `with` statement: an instance that is
+    # returned, stored, passed on or used as a decorator (`cm()(func)`: ContextDecorator re-enters the same instance on
+    # every call of the decorated function, recursive calls included) outlives one entry
+    for mod in ix.modules.values():
+        with_items = {id(it.context_expr) for n in ast.walk(mod.tree) if isinstance(n, (ast.With, ast.AsyncWith))
+                      for it in n.items}
+        for n in ast.walk(mod.tree):
+            if isinstance(n, ast.Call) and id(n) not in with_items:
+                try:
+                    ent = ix.resolve_expr_entity(n.func, mod)
+                except Exception:  # noqa: BLE001
+                    ent = None
+                if ent and ent[0] == "class" and (ent[1] is cls or cls in ent[1].mro()) and \
+                        not any(n is e for _, _, e in shared):
+                    shared.append((mod, f"{norm(n)[:40]} at line {n.lineno}", n))
     chk.require(not shared, "R17.1", "cm:saved-state-per-entry",
                 f"the context manager keeps the saved flag on the instance and one instance is shared by all entries "
                 f"({[n for _, n, _ in shared]}): a nested / overlapping entry overwrites the saved state and the mode "
